@@ -293,3 +293,10 @@ Theorem C12_log2_holds_real : forall m k p q, (0 < p)%Z -> (0 < q)%Z ->
   (log2_ub_holds m k p q <-> (log2R (IZR p / IZR q) <= IZR m / 2 ^ k)%R).
 Proof. intros m k p q Hp Hq. split; [exact (log2_lb_holds_real m k p q Hp Hq) | exact (log2_ub_holds_real m k p q Hp Hq)]. Qed.
 Print Assumptions C12_log2_holds_real.
+
+(** * the estimator table is re-read from base/src/math/log.rs on every run *)
+From Dashu Require Import Int.GrlLog2TabGen.
+From DashuGen Require Import Log2Tab.
+Theorem C12_log2_tab_is_source : LOG2_TAB = LOG2_TAB_gen.
+Proof. exact log2_tab_is_source. Qed.
+Print Assumptions C12_log2_tab_is_source.
